@@ -228,9 +228,13 @@ func validateFromStdin(cmd *cobra.Command) error {
 		return err
 	}
 
-	// Update result to show "stdin" instead of temp file path
-	// The validation has already output results with temp file path
-	// Different output formats are handled below
+	// The reports name the input, not the temporary file it was copied to
+	// (which no longer exists when the report is read)
+	for i := range result.Files {
+		if result.Files[i].Path == tmpFile.Name() {
+			result.Files[i].Path = "stdin"
+		}
+	}
 
 	// Handle different output formats
 	switch validateOutputFormat {
